@@ -21,8 +21,8 @@ CHECKS['C03'] = (OTHER, 'symbolic execution of the real Panel.calc_kG0 over de-C
     'Bounds as in evidence; reals; atoms = exact integrals/functions (C10); stubs: leggauss_quad (symbolic), read_stack.',
     'DESIGN.md section 4 C03')
 CHECKS['C08'] = (OTHER, 'symbolic execution of the real Panel.calc_fint/calc_kT over de-Cythonised calc_fint/fkL_num/fkG_num with symbolic quadrature points vs von-Karman energy gradient/Hessian oracle, plus oracle-free exact five-point-stencil identity; z3 qfnra-nlsat; exact-rational replay',
-    'Bounded symbolic verification: for all amplitudes (generic, membrane-only, bending-only), laminates incl. B, flags, geometry, per symbolic quadrature point and weight: fint = energy gradient, kT = exact Jacobian and symmetric, fint(0)=0, kT(0)=kL(0); uniform vs per-point laminate table.',
-    'Bounds (m,n), quadrature points per evidence; reals; function atoms = Bardell polynomials (C10); assemblies are covered under C12/C13.',
+    'Bounded symbolic verification: for all amplitudes (generic, membrane-only, bending-only), laminates incl. B, flags, geometry, per symbolic quadrature point and weight: fint = energy gradient, kT = exact Jacobian and symmetric, fint(0)=0, kT(0)=kL(0) and (exact Gauss rule) = the analytical k0; uniform vs per-point laminate table; assemblies of 2-3 panels joined by penalty connections: assembly tangent = Jacobian of the assembly internal force (stencil), symmetric, fint(0)=0, linear part = k0 c.',
+    'Bounds (m,n), quadrature points per evidence; reals; function atoms = Bardell polynomials (C10); assemblies up to three panels.',
     'DESIGN.md section 4 C08')
 CHECKS['C01'] = (OTHER, 'symbolic execution of the real read_stack/Lamina.rebuild/calc_constitutive_matrix on symbolic (cos,sin), thicknesses, materials, offset vs explicit tensor-rotation + through-thickness integral oracle; relational corollaries between executions; z3 qfnra-nlsat; exact-rational replay',
     'Bounded symbolic verification for N plies (quick 1-2, thorough 1-4), all three material tuple forms, both argument forms: every A/B/D/E/ABD/ABDE entry equals the integral of the rotated ply stiffness for all real inputs; symmetry, d-shift, mid-plane symmetry, ply-order independence of A, angle mirroring, 90-degree rotation; positive definiteness via three NRA lemmas.',
@@ -37,7 +37,7 @@ CHECKS['C09'] = ('model_checking', 'path-forking symbolic execution of the unmod
     'Histories beyond K non-benign residuals, settings outside the grid and the arc-length solver are outside; user callables opaque; sparse.solve stubbed; one recorded known finding (final factor within 1e-3 of 1).',
     'DESIGN.md section 4 C09')
 CHECKS['C11'] = (OTHER, 'symbolic execution of the real Panel.uvw/strain/stress over the de-Cythonised field kernels incl. the num_cores chunking wrappers (bounds-checked pointer views) vs series/Donnell/F*strain oracle on shared function atoms; z3 qfnra-nlsat per value; exact-rational replay; recorded findings characterised by a second obligation family',
-    'Bounded symbolic verification for all amplitudes, evaluation points, flags, geometry: u,v,w, rotations, six strains (linear and von-Karman), six resultants for the NLterms requested, for every chunk count 1..3 (6) and point count 1..7 (13) incl. sizes not divisible by the chunk count; caller arrays unchanged.',
+    'Bounded symbolic verification for all amplitudes, evaluation points, flags, geometry: u,v,w, rotations, six strains (linear and von-Karman), six resultants for the NLterms requested, for every chunk count 1..3 (6) and point count 1..7 (13) incl. sizes not divisible by the chunk count; caller arrays unchanged; PanelAssembly.uvw/strain/stress per group (each member with its own slice, geometry, model and laminate, in assembly order) and StiffPanelBay skin / stiffener fields.',
     'OpenMP scheduling not modelled (chunks sequential, disjointness checked); known finding F2 (quadratic terms) listed with a characterising obligation so that any other deviation is still reported.',
     'DESIGN.md section 4 C11')
 CHECKS['C19'] = (OTHER, 'symbolic execution of the real Panel.calc_kA/calc_cA (incl. make_skew_symmetric) over de-Cythonised fkAx/fkAy/fcA with exactly interpreted integral tables vs piston-theory bilinear-form oracle; Mach route with sqrt as constrained atom; axis-exchange relational obligation; z3 qfnra-nlsat; exact-rational replay',
@@ -53,7 +53,7 @@ CHECKS['C14'] = ('translation_validation', 'relational symbolic execution: two e
     'Series orders bounded; additivity/end-point lemmas of C10 assumed in (a); eigenvalue corollaries by congruence/scaling are an argument, not a query.',
     'DESIGN.md section 4 C14')
 CHECKS['C05'] = (OTHER, 'symbolic execution of the real analysis.lb / Panel.lb over symbolic matrices with ARPACK/LAPACK contract stubs, under a forking comparison policy (forksym); z3 proves residual, null-amplitude zeros and value/vector pairing per returned column and the ordering implications on every path; exceptions and ordering violations are replayed on the real function with scipy',
-    'Bounded symbolic verification of the wrapper code (what compmech itself contributes): for sizes 5..7, every null pattern class, num_eigvalues 1..25, sparse / null-column fallback / dense paths: (K+lambda KG)v=0 on the full size under the solver contract, zeros on null amplitudes, smallest positive multiplier first and ascending positives under the ascending-mu contract, no exception for admissible inputs.',
+    'Bounded symbolic verification of the wrapper code (what compmech itself contributes): for sizes 5..7, every null pattern class, num_eigvalues 1..25, sparse / null-column fallback / dense paths: (K+lambda KG)v=0 on the full size under the solver contract, zeros on null amplitudes, smallest positive multiplier first and ascending positives under the ascending-mu contract, no exception for admissible inputs; KG with entries beyond the support of K; ConeCyl.lb incl. the real _calc_linear_matrices load split per combined_load_case over linear contract kernels.',
     'ARPACK/LAPACK numerics are contract stubs (that ARPACK returns the multipliers nearest 1 first, convergence, agreement of the numerical paths are outside); ConeCyl.lb outside; sizes concrete.',
     'DESIGN.md section 4 C05')
 CHECKS['C06'] = (OTHER, 'symbolic execution of the real analysis.freq / Panel.freq over symbolic matrices under a forking comparison policy (the wrapper null detection, sort and filter decide on symbolic values) with ARPACK/LAPACK contract stubs; z3 proves residual, zeros, pairing per column and positivity/ascending order after sort on every path; exceptions and residual failures replayed on the real function with scipy',
@@ -65,8 +65,8 @@ CHECKS['C07'] = (OTHER, 'symbolic execution of the real Panel.calc_fext / PanelA
     'spsolve is a contract stub; bay load vectors are claimed with C13; linearity in the loads is a corollary.',
     'DESIGN.md section 4 C07')
 CHECKS['C13'] = (OTHER, 'relational symbolic execution of the real StiffPanelBay / PanelAssembly objects (all bookkeeping) over de-Cythonised panel, connection and stiffener kernels: global result vs re-composition of stand-alone component results at independently derived ranges; skin partition under the C10 additivity lemma; z3 qfnra-nlsat; exact-rational replay',
-    'Bounded symbolic verification of the assembly layers for bays with 0..2 (thorough 4) stiffeners of the three kinds in any order, with/without base, assemblies of 2-3 panels of unequal series orders: size = sum of component sizes, k0/kG0/kM (and kT, fint, fext, recovered fields) = sum of component results at their ranges + connection terms, skin cut at 1..2 (4) symbolic positions leaves k0,kG0,kM unchanged.',
-    'Composition only: component contents are decided in C02-C04/C12; stiffener beam-energy/PSD not decided; bay dimensions concrete; laminates of sub-components are symbolic stubs.',
+    'Bounded symbolic verification of the assembly layers for bays with 0..2 (thorough 4) stiffeners of the three kinds in any order, with/without base, assemblies of 2-3 panels of unequal series orders: size = sum of component sizes, k0/kG0/kM (and kT, fint, fext, recovered fields) = sum of component results at their ranges + connection terms, skin cut at 1..2 (4) symbolic positions leaves k0,kG0,kM unchanged; results after a re-definition of the assembly follow the current definition; stiffener contributions = Hessians of their own energies (BladeStiff1D flange beam energy, BladeStiff2D / TStiff2D connection mismatch energies) and the pointwise PSD condition of the flange form (refuted for coupled flange laminates: recorded finding).',
+    'Component panels are decided in C02-C04/C12; PSD of the 2-D stiffeners is a composition of those with the mismatch-energy blocks, not a query; bay dimensions concrete; laminates of sub-components are symbolic stubs.',
     'DESIGN.md section 4 C13')
 CHECKS['C20'] = (OTHER, 'bounded call-history symbolic execution of the real Panel object: every sequence first-op ; redefinition ; last-op over the public alphabet vs a fresh twin with the final definition asked first; z3 identity per returned entry; caller arrays compared by identity; exact-rational replay',
     'Bounded verification over call histories (14 operations x 14 x 7 redefinitions on flat and cylindrical panels, thorough: all pairs and the w-only model): results depend on the definition only, each quantity can be requested first on a fresh object, caller arrays are not modified.',
